@@ -389,17 +389,24 @@ def run_tokext(run, P, units=('coap_pdu.c',)):
 
 
 def run_tokbias(run, P, units=('coap_pdu.c',)):
-    """(7) which length the RFC 8974 thresholds apply to.  COAP_TOKEN_EXT_1B_BIAS (13) and COAP_TOKEN_EXT_2B_BIAS (269) partition the
-    APPLICATION token length (0-12 in the nibble, 13-268 one extension byte, 269- two).  An ordering comparison against one of these
-    macros therefore never has e_token_length as its other operand: that field already contains the extension bytes (a 268 byte token has
-    e_token_length 269), so the partition would be off by one at exactly the boundary tokens."""
+    """(7) the RFC 8974 partition of token lengths.  A token of 0-12 bytes has its length in the TKL nibble, 13-268 bytes use one
+    extension byte, 269 and more use two.  Every ordering comparison in the codec unit between a token length and a constant that is
+    written with one of the bias macros (COAP_TOKEN_EXT_1B_BIAS = 13, COAP_TOKEN_EXT_2B_BIAS = 269) has to cut the APPLICATION token
+    lengths exactly at 13 or at 269.  Decided exactly by enumeration over all token lengths 0..65804: for a comparison on the application
+    length a the set {a : a OP K}, for a comparison on the on-wire size (e_token_length, which already contains the extension bytes:
+    e = a, a + 1, a + 2 in the three forms) the set {a : e(a) OP K} -- either must be {a < 13} or {a < 269} or a complement.
+    `e_token_length < COAP_TOKEN_EXT_2B_BIAS` cuts at 268 (a 268 byte token has e_token_length 269); `e_token_length < COAP_TOKEN_EXT_1B_BIAS`
+    happens to cut at 13 and is not reported."""
     run.rule('R-CODEC-TAB')
     MAC = ('COAP_TOKEN_EXT_1B_BIAS', 'COAP_TOKEN_EXT_2B_BIAS')
+    ALL = range(0, 65805)
+    GOOD = [frozenset(a for a in ALL if a < 13), frozenset(a for a in ALL if a < 269)]
+    GOOD = GOOD + [frozenset(ALL) - g for g in GOOD]
+    OPS = {'<': lambda a, b: a < b, '<=': lambda a, b: a <= b, '>': lambda a, b: a > b, '>=': lambda a, b: a >= b}
     n = 0
     for f in sorted(P.lib_funcs(), key=lambda f: f['name']):
         if f['unit'] not in units:
             continue
-        # locals that hold e_token_length
         wire_locals = set()
         for b, ev in P.events(f):
             t = ev['e']
@@ -420,28 +427,33 @@ def run_tokbias(run, P, units=('coap_pdu.c',)):
                 exprs.append((b['term']['cond'], b['term']['loc']))
             for e, loc in exprs:
                 for x in walk(e):
-                    if not (isinstance(x, dict) and x.get('k') == 'bin' and x.get('op') in ('<', '<=', '>', '>=')):
+                    if not (isinstance(x, dict) and x.get('k') == 'bin' and x.get('op') in OPS):
                         continue
-                    for m, o in ((x['l'], x['r']), (x['r'], x['l'])):
+                    for m, o, left in ((x['r'], x['l'], False), (x['l'], x['r'], True)):
                         m0 = strip(m)
-                        if isinstance(m0, dict) and m0.get('k') == 'int' and m0.get('mn') in MAC:
-                            k2 = (loc, short(x)[:80])
-                            if k2 in seen:
-                                continue
-                            seen.add(k2)
-                            n += 1
-                            o0 = strip(o)
-                            wire = (isinstance(o0, dict) and o0.get('k') == 'mem' and o0.get('f') == 'e_token_length') or ap(o0) in wire_locals
-                            if wire:
-                                # exact: does the comparison decide differently for some token length than it would on the application length?
-                                K = m0.get('v')
-                                op = x['op'] if m is x['r'] else {'<': '>', '<=': '>=', '>': '<', '>=': '<='}[x['op']]
-                                cmpf = {'<': lambda a, b: a < b, '<=': lambda a, b: a <= b, '>': lambda a, b: a > b, '>=': lambda a, b: a >= b}[op]
-                                wire = any(cmpf(a + (0 if a < 13 else 1 if a < 269 else 2), K) != cmpf(a, K) for a in range(0, 65805))
-                            run.instance('R-CODEC-TAB', '%s: %s' % (f['name'], short(x)[:70]))
-                            run.oblige('R-CODEC-TAB', not wire, '%s:tokbias-operand' % f['name'])
-                            if wire:
-                                run.violation('R-CODEC-TAB', f['name'], loc, 'bias-compared-with-wire-size:%s' % m0['mn'],
-                                              '%s compares the on-wire token size (e_token_length, extension bytes included) with %s, which partitions the application token '
-                                              'length: for a token of exactly %d bytes the wrong arm is taken' % (short(x)[:70], m0['mn'], (m0.get('v') or 0) - 1), [])
+                        if not (isinstance(m0, dict) and m0.get('k') == 'int' and m0.get('mn') in MAC and isinstance(m0.get('v'), int)):
+                            continue
+                        o0 = strip(o)
+                        if not (ap(o0) or (isinstance(o0, dict) and o0.get('k') == 'mem')):
+                            continue
+                        k2 = (loc, short(x)[:80])
+                        if k2 in seen:
+                            continue
+                        seen.add(k2)
+                        n += 1
+                        K = m0['v']
+                        op = x['op'] if not left else {'<': '>', '<=': '>=', '>': '<', '>=': '<='}[x['op']]
+                        wire = (isinstance(o0, dict) and o0.get('k') == 'mem' and o0.get('f') == 'e_token_length') or ap(o0) in wire_locals
+                        if wire:
+                            T = frozenset(a for a in ALL if OPS[op](a + (0 if a < 13 else 1 if a < 269 else 2), K))
+                        else:
+                            T = frozenset(a for a in ALL if OPS[op](a, K))
+                        ok = T in GOOD
+                        run.instance('R-CODEC-TAB', '%s: %s' % (f['name'], short(x)[:70]))
+                        run.oblige('R-CODEC-TAB', ok, '%s:tokbias-partition' % f['name'])
+                        if not ok:
+                            cut = min(T) if T and 0 not in T else (min(frozenset(ALL) - T) if T else 0)
+                            run.violation('R-CODEC-TAB', f['name'], loc, 'token-length-partition:%s' % m0['mn'],
+                                          '%s cuts the application token lengths at %d (%s), not at 13 or 269 where RFC 8974 changes the form of the token length: the boundary '
+                                          'tokens take the wrong arm' % (short(x)[:70], cut, 'comparison on the on-wire size, which contains the extension bytes' if wire else 'comparison on the application length'), [])
     run.require(n >= (6 if run.cfg == 'base' else 4) or run.fixture_mode, 'R-CODEC-TAB(7): only %d comparisons with the extended-token bias macros found' % n)
